@@ -45,6 +45,7 @@ def setup(ctx):
     ctx.require("monitor", "verify_returns_seen", 29)
     ctx.require("monitor", "writes_seen", 20)
     ctx.require("monitor", "control_peer_saw_request", 12)
+    ctx.require("monitor", "concurrent_batches", 4)
 
 
 class OrderMonitor:
@@ -264,5 +265,74 @@ def run(ctx):
                             os.unlink(dbp)
                         except OSError:
                             pass
+            # ---- concurrent calls on one client
+            if ctx.mine(k + 1):
+                run_concurrent(ctx, peer, idents, state, tmp, mon)
     finally:
         shutil.rmtree(tmp, ignore_errors=True)
+
+
+def run_concurrent(ctx, peer, idents, state, tmp, mon):
+    """(a) several concurrent calls to a pinned host whose certificate changed: none may leak;
+    (b) concurrent first contacts where the peer presents different certificates to different connections:
+    whichever certificate ends up pinned, connections that presented another one must have received nothing."""
+    from cryptography import x509
+
+    from nauyaca.client.session import GeminiClient
+    from nauyaca.security.tofu import TOFUDatabase
+
+    good = x509.load_der_x509_certificate(idents["good"].der)
+    reps = ctx.pick(3, 25)
+    for rep in range(reps):
+        for scenario in ("changed-pinned", "racing-first-contact"):
+            for op in ("get", "upload"):
+                dbp = os.path.join(tmp, f"conc{rep}{scenario}{op}.db")
+                db = TOFUDatabase(Path(dbp))
+                state.update(mode="eager", redirect_to=None)
+                state["go"].set()
+                peer.ident_for_connection = None
+                peer.swap_cert(idents["good"])
+                if scenario == "changed-pinned":
+                    db.trust("127.0.0.1", peer.port, good)
+                    peer.swap_cert(idents["other"])
+                else:
+                    n_before = len(peer.log)
+                    peer.ident_for_connection = lambda idx, n_before=n_before: idents["good"] if (idx - n_before) % 2 == 0 else idents["other"]
+                n0 = len(peer.log)
+                url = f"gemini://127.0.0.1:{peer.port}/conc?token=SECRET"
+                mon.take()
+
+                async def go():
+                    c = GeminiClient(timeout=6, trust_on_first_use=True, tofu_db_path=Path(dbp))
+                    if op == "get":
+                        calls = [c.get(url) for _ in range(4)]
+                    else:
+                        calls = [c.upload(url, b"payload-%d" % i * 50, mime_type="text/plain", token="SECRETTOKEN") for i in range(4)]
+                    return await asyncio.gather(*calls, return_exceptions=True)
+
+                results = asyncio.run(go())
+                peer.wait_idle(5)
+                peer.ident_for_connection = None
+                ctx.count("monitor", "calls", 4)
+                ctx.count("monitor", "concurrent_batches")
+                recs = peer.log[n0:]
+                pinned = {(r[0], r[1]): r[2] for r in __import__("sqlite3").connect(dbp).execute("SELECT hostname, port, fingerprint FROM known_hosts").fetchall()}
+                pin = pinned.get(("127.0.0.1", peer.port))
+                outcomes = [("response", r.status) if not isinstance(r, BaseException) else ("error", type(r).__name__) for r in results]
+                for r in recs:
+                    if r["cert_fp"] != pin and r["received"]:
+                        ctx.violation(f"peer-received-bytes:concurrent:{scenario}:entry={op}",
+                                      f"a connection that presented a certificate other than the pinned one received {len(r['received'])} application bytes",
+                                      {"scenario": scenario, "operation": op, "pin": pin, "connection_cert": r["cert_fp"], "received_head": r["received"][:100], "outcomes": outcomes})
+                        break
+                else:
+                    ctx.count("outcome", f"concurrent:{scenario}:{op}:clean")
+                if scenario == "changed-pinned":
+                    ctx.count("monitor", "failed_verifications", 4)
+                    if any(o[0] == "response" for o in outcomes):
+                        ctx.undecided("concurrent: verification did not fail (see C03)")
+                ctx.case(("concurrent", scenario, op, tuple(sorted(set(outcomes)))), True, sample={"scenario": scenario, "operation": op, "outcomes": outcomes, "pin": pin, "connections": [(r["cert_fp"][-8:], len(r["received"])) for r in recs]})
+                try:
+                    os.unlink(dbp)
+                except OSError:
+                    pass
